@@ -214,7 +214,7 @@ def _branch_and_price(
     total_cg_iters = 0
 
     # Solve root node LP via column generation
-    x_vals, lp_obj, cg_iters = _solve_node_lp(
+    x_vals, lp_obj, cg_iters, root_converged = _solve_node_lp(
         columns, column_set, demands, {}, pricing_fn, is_cutting_stock, max_iter, eps
     )
     total_cg_iters += cg_iters
@@ -226,11 +226,12 @@ def _branch_and_price(
     frac_idx, frac_val = _most_fractional(x_vals, eps)
     if frac_idx is None:
         solution = _build_solution(x_vals, columns, eps)
-        return Result(solution, lp_obj, 0, total_cg_iters, Status.OPTIMAL)
+        return Result(solution, lp_obj, 0, total_cg_iters, Status.OPTIMAL if root_converged else Status.FEASIBLE)
 
-    # The root LP is priced over all columns, so its rounded-up value bounds every integer plan from below.
+    # The root LP is priced over all columns, so its rounded-up value bounds every integer plan from below
+    # (provided column generation converged within max_iter; otherwise nothing is proven).
     # Node LPs below are restricted to the columns generated so far and prove nothing about optimality.
-    root_bound = ceil(lp_obj - eps)
+    root_bound = ceil(lp_obj - eps) if root_converged else float("-inf")
 
     # Initialize B&B
     best_solution: dict[tuple[int, ...], int] | None = None
@@ -258,7 +259,7 @@ def _branch_and_price(
         col_bounds = {idx: (lo, hi) for idx, lo, hi in node.column_bounds}
 
         # Solve node LP with column generation
-        x_vals, lp_obj, cg_iters = _solve_node_lp(
+        x_vals, lp_obj, cg_iters, _ = _solve_node_lp(
             columns, column_set, demands, col_bounds, pricing_fn, is_cutting_stock, max_iter, eps
         )
         total_cg_iters += cg_iters
@@ -311,12 +312,13 @@ def _branch_and_price(
 def _solve_node_lp(columns, column_set, demands, col_bounds, pricing_fn, is_cutting_stock, max_iter, eps):
     """Solve LP relaxation at a B&B node via column generation."""
     cg_iters = 0
+    converged = False  # True once pricing finds no improving column
 
     for _ in range(max_iter):
         x_vals, duals, lp_obj = _solve_bounded_master_lp(columns, demands, col_bounds, eps)
 
         if lp_obj == float("inf"):
-            return x_vals, lp_obj, cg_iters
+            return x_vals, lp_obj, cg_iters, True
 
         # Pricing
         new_col, pricing_value = pricing_fn(duals)
@@ -324,9 +326,11 @@ def _solve_node_lp(columns, column_set, demands, col_bounds, pricing_fn, is_cutt
         # Check reduced cost
         if is_cutting_stock:
             if pricing_value <= 1.0 + eps:
+                converged = True
                 break
         else:
             if new_col is None or pricing_value >= -eps:
+                converged = True
                 break
 
         if new_col is not None and new_col not in column_set:
@@ -337,7 +341,7 @@ def _solve_node_lp(columns, column_set, demands, col_bounds, pricing_fn, is_cutt
 
     # Final solve
     x_vals, duals, lp_obj = _solve_bounded_master_lp(columns, demands, col_bounds, eps)
-    return x_vals, lp_obj, cg_iters
+    return x_vals, lp_obj, cg_iters, converged
 
 
 def _solve_bounded_master_lp(columns, demands, col_bounds, eps):
